@@ -114,7 +114,7 @@ func VPH_treeInit() {
 		vp_Assert(rec == nil, "no record left for a final tree")
 		vp_Assert(uint64(g.historySize.MaxTreeEntries) == uint64(K) && uint64(g.historySize.UniqueTreeEntries) == uint64(K), "entry count = number of entries, every kind counted")
 	} else {
-		vp_Assert(rec != nil && rec.pending == pending, "waits for exactly the unknown subtrees")
+		vp_Assert(rec != nil && int(rec.pending) == pending, "waits for exactly the unknown subtrees")
 		if rec == nil {
 			return
 		}
@@ -130,4 +130,67 @@ func VPH_treeInit() {
 	vp_Assert(uint64(got.MaxPathLength) == wantLen, "path length")
 	_ = want
 	vp_Reach("end")
+}
+
+
+// VPH_wideTree (C04, C02): a single tree with W entries that all name the same
+// not-yet-known subdirectory (W around 2^8 and 2^16, where a narrow bookkeeping
+// counter would wrap), nested under a parent; the subdirectory arrives last.
+func VPH_wideTree() {
+	W := []int{255, 256, 257, 65535, 65536, 65537}[vp_Choice("width", vp_Param("widths"))]
+	g := NewGraph(NameStyleNone)
+	blob := vpMkOID('b', 0)
+	g.RegisterBlob(blob, 5)
+	leaf := vpMkOID('t', 1) // the shared subdirectory: one file "f"
+	var leafData []byte
+	leafData = append(leafData, "100644 f"...)
+	leafData = append(leafData, 0)
+	leafData = append(leafData, blob.Bytes()...)
+	wide := vpMkOID('t', 2)
+	var wideData []byte
+	for i := 0; i < W; i++ {
+		name := "d" + vpItoa6(i)
+		wideData = append(wideData, "40000 "...)
+		wideData = append(wideData, name...)
+		wideData = append(wideData, 0)
+		wideData = append(wideData, leaf.Bytes()...)
+	}
+	root := vpMkOID('t', 3)
+	var rootData []byte
+	rootData = append(rootData, "40000 w"...)
+	rootData = append(rootData, 0)
+	rootData = append(rootData, wide.Bytes()...)
+	for _, x := range []struct {
+		oid  git.OID
+		data []byte
+	}{{root, rootData}, {wide, wideData}, {leaf, leafData}} {
+		t, _ := git.ParseTree(x.oid, x.data)
+		if err := g.RegisterTree(x.oid, t); err != nil {
+			vp_Fail("RegisterTree")
+			return
+		}
+	}
+	var hs HistorySize
+	panicked := vp_Catch(func() { hs = g.HistorySize() })
+	vp_Assert(!panicked, "nothing left pending")
+	if panicked {
+		return
+	}
+	vp_Assert(uint64(hs.MaxExpandedTreeCount) == uint64(W)+2, "directories: root + wide + W subdirectories")
+	vp_Assert(uint64(hs.MaxExpandedBlobCount) == uint64(W), "files: one per subdirectory")
+	vp_Assert(uint64(hs.MaxExpandedBlobSize) == 5*uint64(W), "bytes")
+	vp_Assert(uint64(hs.MaxPathDepth) == 3, "depth w/dNNNNNN/f")
+	vp_Assert(uint64(hs.MaxPathLength) == 1+1+7+1+1, "path length of w/dNNNNNN/f")
+	vp_Assert(uint64(hs.MaxTreeEntries) == uint64(W) && uint64(hs.UniqueTreeEntries) == uint64(W)+2, "entries")
+	vp_Assert(uint64(hs.UniqueTreeCount) == 3, "three distinct trees")
+	vp_Reach("end")
+}
+
+func vpItoa6(n int) string {
+	b := []byte("000000")
+	for i := 5; i >= 0; i-- {
+		b[i] = byte('0' + n%10)
+		n /= 10
+	}
+	return string(b)
 }
